@@ -64,6 +64,7 @@ type verifConn struct {
 	readsUnarmedMidPacket int
 	noDeadlineErrs bool
 	onWrite func(c *verifConn) // hook after each accepted write
+	beforeWrite func()         // hook at the start of each Write, before the bytes are looked at
 	coarse  bool               // case-split faulty write offsets coarsely (0, 1, len-1)
 	onClose func()             // hook at Close
 	slow    bool               // a Write takes time: other goroutines get to run meanwhile (scheduling point)
@@ -73,6 +74,9 @@ func (c *verifConn) Write(p []byte) (int, error) {
 	c.wcalls++
 	if c.slow && len(p) > 0 {
 		verifYieldTag(string([]byte{'w', "0123456789abcdef"[p[0]>>4], "0123456789abcdef"[len(p)&15]}))
+	}
+	if c.beforeWrite != nil {
+		c.beforeWrite()
 	}
 	if c.closed {
 		return 0, net.ErrClosed
@@ -208,6 +212,7 @@ type verifStore struct {
 	crashAt int // the process stops right before the crashAt-th Save/Delete (0 = never)
 	mutOps  int
 	slow    bool // a Save takes time: a scheduling point before and after it
+	beforeSave func() // hook at the start of each Save, before the value is looked at
 }
 
 // verifStoreCrash is the process stop: nothing after it happens.
@@ -260,6 +265,9 @@ func (s *verifStore) Save(key uint, value net.Buffers) error {
 	if s.slow {
 		verifYieldTag("save")
 		defer verifYieldTag("saved")
+	}
+	if s.beforeSave != nil {
+		s.beforeSave()
 	}
 	s.crashPoint()
 	if s.fail("savefail") {
